@@ -11,6 +11,7 @@ import (
 	webdav "github.com/emersion/go-webdav"
 	"github.com/emersion/go-webdav/verifmc/engine"
 	"github.com/emersion/go-webdav/verifmc/harness"
+	"github.com/emersion/go-webdav/verifmc/indep"
 )
 
 // Explicit-state exploration of the real webdav.Handler over a real directory.
@@ -79,6 +80,9 @@ func fsProbeStates() []harness.Tree {
 		{"/": {Dir: true}, "/a": {Content: ""}, "/b.html": {Dir: true}, "/b.html/a": {Content: ""}, "/b.html/b.html": {Content: "x"}},
 		// names that need escaping on the request line and in the Destination header
 		{"/": {Dir: true}, "/a%41": {Content: "x"}, "/100%": {Dir: true}, "/100%/a b": {Content: "yy"}, "/é": {Content: "x"}},
+		// a typed file listed before an untyped one and before a collection (state carried from one
+		// listed member to the next would show)
+		{"/": {Dir: true}, "/a": {Dir: true}, "/a/a.html": {Content: "x"}, "/a/b": {Content: "yy"}, "/a/c": {Dir: true}, "/a/c/a": {Content: ""}},
 		// siblings one of whose names is a string prefix of the other
 		{"/": {Dir: true}, "/a": {Dir: true}, "/a/a": {Content: "x"}, "/ab": {Content: "yy"}, "/a.bak": {Dir: true}},
 		{"/": {Dir: true}, "/a": {Dir: true}, "/a/a": {Dir: true}, "/a/a/a": {Content: "x"}},
@@ -212,6 +216,9 @@ func fsRequests(quick bool) []harness.Req {
 type fileProbe struct {
 	ETag, LastMod, CType string
 	Status               int
+	// Props: the resource's own PROPFIND (Depth 0, allprop) answer in the same state: canonical value of
+	// every property reported with status 200, by expanded name
+	Props map[string]string
 }
 
 // fsVisit is what a property-specific oracle sees for every transition.
@@ -242,20 +249,32 @@ type fsWorker struct {
 }
 
 // fsRootSpellings are ways to write the same served directory when configuring LocalFileSystem.
-var fsRootSpellings = []string{"clean", "trailing-slash", "trailing-slash-dot", "doubled-slash", "dot-segment"}
+var fsRootSpellings = []string{"clean", "trailing-slash", "trailing-slash-dot", "doubled-slash", "dot-segment", "relative", "dot-dot-segment"}
 
-func (w *fsWorker) served() string {
-	switch w.spell {
+func (w *fsWorker) served() string { return spellRoot(w.root, w.spell) }
+
+// spellRoot writes the directory root in the given spelling (fsRootSpellings).
+func spellRoot(root string, spell int) string {
+	switch spell {
 	case 1:
-		return w.root + "/"
+		return root + "/"
 	case 2:
-		return w.root + "/."
+		return root + "/."
 	case 3:
-		return filepath.Dir(w.root) + "//" + filepath.Base(w.root)
+		return filepath.Dir(root) + "//" + filepath.Base(root)
 	case 4:
-		return filepath.Dir(w.root) + "/./" + filepath.Base(w.root)
+		return filepath.Dir(root) + "/./" + filepath.Base(root)
+	case 5:
+		// relative to the checker's working directory
+		if wd, err := os.Getwd(); err == nil {
+			if rel, err := filepath.Rel(wd, root); err == nil {
+				return rel
+			}
+		}
+	case 6:
+		return filepath.Dir(root) + "/" + filepath.Base(root) + "/../" + filepath.Base(root)
 	}
-	return w.root
+	return root
 }
 
 const rootToken = "vroot-7f3a"
@@ -293,6 +312,22 @@ func (w *fsWorker) load(t harness.Tree) {
 		}
 		r := harness.Serve(w.handler, harness.Req{Method: "GET", Path: p})
 		w.probe[p] = fileProbe{ETag: r.Header.Get("ETag"), LastMod: r.Header.Get("Last-Modified"), CType: r.Header.Get("Content-Type"), Status: r.Status}
+	}
+	// every resource's own Depth-0 answer (files and collections)
+	for p := range t {
+		r := harness.Serve(w.handler, harness.Req{Method: "PROPFIND", Path: harness.EscapePath(p), Header: map[string]string{"Depth": "0", "Content-Type": "application/xml"}, Body: pfAllprop})
+		ms, err := indep.ReadMultiStatus(r.Body)
+		if err != nil || len(ms.Responses) != 1 {
+			continue
+		}
+		pr := w.probe[p]
+		pr.Props = map[string]string{}
+		for _, mp := range ms.Responses[0].Props {
+			if mp.Status == 200 {
+				pr.Props["{"+mp.Node.Space+"}"+mp.Node.Local] = mp.Node.Canon()
+			}
+		}
+		w.probe[p] = pr
 	}
 	if _, st := harness.Snapshot(w.rootReal); st != w.stamp {
 		// a GET changed the fingerprint: rebuild so that every request sees the same start
